@@ -34,6 +34,14 @@ CHECKS["C01"] = dict(
     ref="DESIGN.md §5 C01",
 )
 
+CHECKS["C03"] = dict(
+    level="exploration",
+    text="Every document the real serializer produces for generated models/instances/configurations (incl. hostile user prefix maps and hostile text, both writers and the tree serializer) is judged by independent validators (strict libxml2, expat, an own namespace-scope checker) and compared with a reference infoset computed from the documented metadata without consulting XmlMeta; contract hooks on generate_prefix and the writer state. Held on the executions produced.",
+    note="Trusted: vf/ir.py Ref (transcription of the documented metadata rules), vf/xmlkit.py, libxml2, expat. Shapes the reference does not cover are dropped and counted. One open known finding (unqualified xsi:type under a user default namespace) has a dedicated probe.",
+    technique="runtime monitoring: independent validators per produced document + reference-model oracle + contract hooks on generate_prefix/EventHandler; hostile prefix-map and text workloads",
+    ref="DESIGN.md §5 C03",
+)
+
 FIX_COMMITS = []  # guarded hook commits in /repo (none: all hooks are installed from the harness side)
 
 
